@@ -15,15 +15,12 @@ FIELD = re.compile(r"\{([A-Z_]+):([^:}]*)(?::([^}]*))?\}")
 
 
 def date_patterns(lang):
-    """the small_date patterns are in src/smartcalc.rs (per language)"""
+    """the small_date patterns are in src/smartcalc.rs: SmartCalc::default() calls set_date_rule("<lang>", vec![...]) per language"""
     src = open(os.path.join(REPO, "src", "smartcalc.rs"), encoding="utf-8").read()
-    pats = re.findall(r'"(\{(?:NUMBER|MONTH):[^"]*)"\.to_string\(\)', src)
-    en = [p for p in pats]
-    # the first block is "en", the second "tr" (see SmartCalc::default)
-    half = [i for i, p in enumerate(en) if p.startswith("{NUMBER:day}/{NUMBER:month}/{NUMBER:year}")]
-    if len(half) >= 2:
-        return en[:half[1]] if lang == "en" else en[half[1]:]
-    return en
+    m = re.search(r'set_date_rule\(\s*"%s"\s*,\s*vec!\[(.*?)\]\s*\)' % re.escape(lang), src, re.S)
+    if not m:
+        return []
+    return re.findall(r'"([^"]*)"\.to_string\(\)', m.group(1))
 
 
 def matcher_list(pattern, lang):
@@ -75,7 +72,9 @@ def write_rules(lang="en"):
     os.makedirs(os.path.join(OUT, "run"), exist_ok=True)
     p = os.path.join(OUT, "run", "rules.%s.json" % lang)
     with open(p, "w", encoding="utf-8") as f:
-        json.dump({"rules": rule_table(lang)}, f, ensure_ascii=False)
+        # the connective / unit / currency words of the model checker's token alphabet, in the language of the table
+        words = {"en": ["to", "as", "hours", "of", "usd", "date"], "tr": ["arası", "saat", "of", "usd", "gün", "on"]}.get(lang, ["usd"])
+        json.dump({"rules": rule_table(lang), "words": words}, f, ensure_ascii=False)
     return p
 
 
